@@ -323,14 +323,175 @@ func ruleF8c(c *Ctx) {
 			}
 			return true
 		})
-		// order of criteria
+		// order of criteria: each if is classified by what its condition is computed from
+		// (chasing single-assignment locals): the fits-in-imm8 predicate, encoding sizes, the
+		// ModRM field (accumulator form), the immediate's size (imm8 form)
+		defs := map[types.Object]ast.Expr{}
+		ast.Inspect(fd.Body, func(n ast.Node) bool {
+			if as, ok := n.(*ast.AssignStmt); ok && as.Tok == token.DEFINE && len(as.Lhs) == len(as.Rhs) {
+				for i, l := range as.Lhs {
+					if id, ok := l.(*ast.Ident); ok && info.Defs[id] != nil {
+						defs[info.Defs[id]] = as.Rhs[i]
+					}
+				}
+			}
+			return true
+		})
+		var tagsOf func(e ast.Expr, seen map[types.Object]bool, out map[string]bool)
+		tagsOf = func(e ast.Expr, seen map[types.Object]bool, out map[string]bool) {
+			ast.Inspect(e, func(n ast.Node) bool {
+				switch x := n.(type) {
+				case *ast.SelectorExpr:
+					switch x.Sel.Name {
+					case "ImmediateValueFitsInSigned8Bits":
+						out["fits"] = true
+					case "GetOutputSize":
+						out["size"] = true
+					case "ModRM":
+						out["modrm"] = true
+					case "Size":
+						if in, ok := x.X.(*ast.SelectorExpr); ok && in.Sel.Name == "Immediate" {
+							out["immsize"] = true
+						}
+					}
+				case *ast.Ident:
+					if obj := info.Uses[x]; obj != nil && !seen[obj] {
+						if d, ok := defs[obj]; ok {
+							seen[obj] = true
+							tagsOf(d, seen, out)
+						}
+					}
+				}
+				return true
+			})
+		}
+		type critIf struct {
+			pos  token.Pos
+			tags map[string]bool
+		}
+		var ifs []critIf
+		var collect func(list []ast.Stmt, outer map[string]bool)
+		collect = func(list []ast.Stmt, outer map[string]bool) {
+			for _, st := range list {
+				is, ok := st.(*ast.IfStmt)
+				if !ok {
+					continue
+				}
+				tags := map[string]bool{}
+				for k := range outer {
+					tags[k] = true
+				}
+				tagsOf(is.Cond, map[types.Object]bool{}, tags)
+				returns := false
+				for _, bs := range is.Body.List {
+					if _, ok := bs.(*ast.ReturnStmt); ok {
+						returns = true
+					}
+				}
+				if returns {
+					ifs = append(ifs, critIf{is.Pos(), tags})
+				}
+				collect(is.Body.List, tags)
+			}
+		}
+		collect(fd.Body.List, map[string]bool{})
+		first := func(pred func(critIf) bool, after token.Pos) token.Pos {
+			for _, ci := range ifs {
+				if ci.pos > after && pred(ci) {
+					return ci.pos
+				}
+			}
+			return token.NoPos
+		}
+		sizeIf := first(func(ci critIf) bool { return ci.tags["size"] }, token.NoPos)
+		accIf := first(func(ci critIf) bool { return ci.tags["modrm"] }, token.NoPos)
 		if fn == "findBestEncodingForSignExtendable" {
-			ord := validPos.IsValid() && sizePos.IsValid() && accPos.IsValid() && immPos.IsValid() && validPos < sizePos && sizePos < accPos && accPos < immPos
+			validIf := first(func(ci critIf) bool { return ci.tags["fits"] && ci.tags["immsize"] }, token.NoPos)
+			immIf := token.NoPos
+			if accIf.IsValid() {
+				immIf = first(func(ci critIf) bool { return ci.tags["immsize"] && !ci.tags["modrm"] }, accIf)
+			}
+			ord := validIf.IsValid() && sizeIf.IsValid() && accIf.IsValid() && immIf.IsValid() && validIf < sizeIf && sizeIf < accIf && accIf < immIf
 			c.check(ord, "F8c", fn+"|criteria order", c.L.Pos(fd.Pos()), "criteria must be applied in the order validity, size, accumulator form, imm8 form")
 		} else {
-			ord := sizePos.IsValid() && accPos.IsValid() && sizePos < accPos
+			ord := sizeIf.IsValid() && accIf.IsValid() && sizeIf < accIf
 			c.check(ord, "F8c", fn+"|criteria order", c.L.Pos(fd.Pos()), "criteria must be applied in the order size, accumulator form")
 		}
+		_, _, _, _ = sizePos, accPos, immPos, validPos
+		// the same preference written as `if pA != pB { return pA }`: the a-side flag is returned
+		side := func(e ast.Expr) types.Object {
+			var got types.Object
+			both := false
+			var walk func(e ast.Expr, seen map[types.Object]bool)
+			walk = func(e ast.Expr, seen map[types.Object]bool) {
+				ast.Inspect(e, func(n ast.Node) bool {
+					id, ok := n.(*ast.Ident)
+					if !ok {
+						return true
+					}
+					obj := info.Uses[id]
+					if obj == aObj || obj == bObj {
+						if got != nil && got != obj {
+							both = true
+						}
+						got = obj
+					} else if d, ok := defs[obj]; ok && !seen[obj] {
+						seen[obj] = true
+						walk(d, seen)
+					}
+					return true
+				})
+			}
+			walk(e, map[types.Object]bool{})
+			if both {
+				return nil
+			}
+			return got
+		}
+		nd := 0
+		ast.Inspect(fd.Body, func(n ast.Node) bool {
+			is, ok := n.(*ast.IfStmt)
+			if !ok || len(is.Body.List) != 1 {
+				return true
+			}
+			ret, ok := is.Body.List[0].(*ast.ReturnStmt)
+			if !ok || len(ret.Results) != 1 {
+				return true
+			}
+			var ne *ast.BinaryExpr
+			var find func(e ast.Expr)
+			find = func(e ast.Expr) {
+				if be, ok := ast.Unparen(e).(*ast.BinaryExpr); ok {
+					if be.Op == token.NEQ {
+						ne = be
+					} else if be.Op == token.LAND {
+						find(be.X)
+						find(be.Y)
+					}
+				}
+			}
+			find(is.Cond)
+			rid, isId := ast.Unparen(ret.Results[0]).(*ast.Ident)
+			if ne == nil || !isId {
+				return true
+			}
+			l, lok := ast.Unparen(ne.X).(*ast.Ident)
+			r, rok := ast.Unparen(ne.Y).(*ast.Ident)
+			if !lok || !rok || !isBoolType(info.TypeOf(l)) {
+				return true
+			}
+			sl, sr := side(l), side(r)
+			if sl == nil || sr == nil || sl == sr {
+				return true
+			}
+			nd++
+			aFlag := l
+			if sr == aObj {
+				aFlag = r
+			}
+			c.check(info.Uses[rid] == info.Uses[aFlag], "F8c", fmt.Sprintf("%s|preference direction#%d", fn, nd), c.L.Pos(is.Pos()), fmt.Sprintf("when exactly one of %s / %s holds the comparator must return the flag of a (%s); it returns %s", l.Name, r.Name, aFlag.Name, rid.Name))
+			return true
+		})
 	}
 	// validity definition and the signed-8 predicate feeding it
 	if fd, _ := c.L.FuncDecl("pkg/asmdb", "findBestEncodingForSignExtendable"); fd != nil {
